@@ -13,6 +13,7 @@ RULE = (
     "exhaustive b<=6,t<=4,n<=5 with a counting MCMC model; generated b in 0..12 (also 100, 1000), t in 1..6 (also 10, 25), n in 1..8 (also 20, 100, 257, 600, 1025), seeds in {0, small, up to 2^63}, "
     "n_chains 1..6 with two chain indices; a cross-process sweep (fixed triples sampled in three different orders in three interpreters must get the same streams); a counting VI model; the real SparseDrugCombo sampler in 1 of 8 cases. "
     "Non-trivial = b>0 and t>1 and n_chains>1 (exhaustive grid: b>0 and t>1). distinct = distinct case JSON."
+    ' Also: schedules of 2**31 .. 2**63 steps followed for a bounded number of steps by a counting model that then gives up.'
 )
 ASSUMPTIONS = [
     "stream non-overlap is checked on disjointness of 1000-output prefixes of any two chains; agreement with numpy's SeedSequence(seed).spawn(n_chains)[i] is reported as a class label, not required (the statement does not prescribe the mechanism)",
@@ -127,6 +128,10 @@ def exhaustive(tier):
         for t in range(1, 5):
             for n in range(1, 6):
                 yield {"kind": "mcmc", "b": b, "t": t, "n": n, "seed": 7, "n_chains": 2, "chain": 1, "other": 0}
+    # schedules whose total length crosses 2**31 / 2**32 steps or comes close to 2**63 (beyond that the pinned tree itself refuses with OverflowError): followed for a bounded number of steps only (the counting
+    # model gives up after `budget` steps), by which time nothing may have ended and every recording must be on schedule
+    for b, t, n, budget in [(3, 65536, 65536, 140000), (0, 2**31, 1, 2000), (2, 1, 2**31 + 5, 3000), (1, 2**16, 2**15, 70000), (5, 3, 2**31 // 3 + 7, 2000)] + ([(0, 2**32 + 1, 2, 1000), (7, 2**20, 2**12, 2**21 + 50), (0, 46341, 46341, 100000), (1, 2**31, 2**31, 500), (0, 3037000499, 3037000499, 500)] if tier != "quick" else []):
+        yield {"kind": "mcmc_huge", "b": b, "t": t, "n": n, "budget": budget, "seed": 5, "n_chains": 3, "chain": 2}
 
 
 @st.composite
@@ -265,6 +270,30 @@ def check_case(case):
     if case["kind"] == "cli":
         return _check_cli(case)
     Counting, CountingVI, StepTheta = _models()
+    if case["kind"] == "mcmc_huge":
+        b, t, n, budget = case["b"], case["t"], case["n"], case["budget"]
+
+        class GiveUp(Exception):
+            pass
+
+        class Bounded(Counting):
+            def step(self):
+                if self.steps >= budget:
+                    raise GiveUp()
+                Counting.step(self)
+
+        m = Bounded()
+        require(budget < b + n * t, "harness", "budget covers the whole schedule")
+        try:
+            out = sampling.sample(model=m, results=ThetaHolder(n_thetas=n), seed=case["seed"], n_chains=case["n_chains"], chain_index=case["chain"], n_burnin=b, thin=t)
+        except GiveUp:
+            out = None
+        require(out is None, "mcmc.huge.ended_early", lambda: "b=%d t=%d n=%d: sample() returned after %d steps with %d samples recorded; the schedule has %d steps" % (b, t, n, m.steps, len(out.thetas), b + n * t))
+        require(m.steps == budget, "mcmc.huge.steps", lambda: "b=%d t=%d n=%d: %d steps taken before the model gave up at %d" % (b, t, n, m.steps, budget))
+        states = [e[1] for e in m.events if e[0] == "state"]
+        exp = [b + (i + 1) * t for i in range(min(n, (budget - b) // t if budget >= b else 0))]
+        require(states == exp, "mcmc.huge.recorded_steps", lambda: "b=%d t=%d n=%d: during the first %d steps states were recorded after steps %r..., expected %r..." % (b, t, n, budget, states[:5], exp[:5]))
+        return {"nontrivial": True, "labels": ["mcmc-schedule>=2^%d" % ((n * t).bit_length() - 1)]}
     b, t, n = case["b"], case["t"], case["n"]
     seed, n_chains, chain = case["seed"], case["n_chains"], case["chain"]
     labels = [case["kind"]]
